@@ -56,8 +56,19 @@ func c02MakeList(c *core.Ctx) *c02List {
 	}
 	l.nhosts = names
 	n := 4 + c.Rng.Intn(40)
+	// One list in ten concentrates on a single name, so that dozens of rules
+	// and host entries answer the same query.
+	focus := ""
+	if c.Rng.Intn(10) == 0 {
+		focus = names[c.Rng.Intn(len(names))]
+		n += 40 + c.Rng.Intn(60)
+		c.Event("lists_focused_on_one_name", 1)
+	}
 	for i := 0; i < n; i++ {
 		h := names[c.Rng.Intn(len(names))]
+		if focus != "" && c.Rng.Intn(4) > 0 {
+			h = focus
+		}
 		switch r := c.Rng.Intn(10); {
 		case r < 5:
 			s := &gen.Spec{Exception: c.Rng.Intn(4) == 0}
@@ -410,6 +421,12 @@ func c02Run(c *core.Ctx, idx int) {
 			c.NonTrivial(core.Hash64(append([]string{q.Key()}, l.lines...)...))
 		}
 		c.Event("class_"+wantClass, 1)
+		if len(wantN) > 16 {
+			c.Event("requests_with_more_than_16_network_rules", 1)
+		}
+		if len(w4)+len(w6) > 16 {
+			c.Event("requests_with_more_than_16_host_entries", 1)
+		}
 		if d["dns.host.candidate"] > d["dns.host.match"] {
 			c.Event("host_hash_hit_rejected_by_match", 1)
 		}
